@@ -442,3 +442,23 @@ def ck_placed(s):
 def same(a, b):
     """identical values (lists compared element-wise; symbolically: identical cell arrays)"""
     return list(a) == list(b) if hasattr(a, "__len__") else a == b
+
+
+def ck_fp(s, key):
+    """fingerprint of a key: the low fingerprint_size_bits bits of its hash"""
+    return s._CuckooFilter__hash_func(key) % 2 ** s._fingerprint_size
+
+
+def undone_table(buckets, hand, swaps, n):
+    """the table after swapping back the first n recorded (bucket, slot) swaps, newest first"""
+    t = [list(b) for b in buckets]
+    for b, j in reversed(list(swaps)[:max(n, 0)]):
+        hand, t[b][j] = t[b][j], hand
+    return t
+
+
+def undone_hand(buckets, hand, swaps, n):
+    t = [list(b) for b in buckets]
+    for b, j in reversed(list(swaps)[:max(n, 0)]):
+        hand, t[b][j] = t[b][j], hand
+    return hand
